@@ -49,14 +49,18 @@ def build_scenario(rng, idx, mode):
             "contacts": ["a@example.org"], "key_type": "ecdsa_p256"}
 
 
-def write_cfg(root, sc, cas, contacts, key_type):
+EAB_KEY = "MDEyMzQ1Njc4OWFiY2RlZjAxMjM0NTY3ODlhYmNkZWY"   # base64url of 32 bytes
+
+
+def write_cfg(root, sc, cas, contacts, key_type, eab=False):
     log = os.path.join(root, "hooks.log")
     hooks = [flow.recorder_hook("rec-" + t, t, log) for t in flow.HOOK_TYPES if not t.startswith("file-")]
     cfg = {"global": {"accounts_directory": os.path.join(root, "accounts"),
                       "certificates_directory": os.path.join(root, "certs")},
            "endpoint": [{"name": "ep%d" % j, "url": cas[j].base + "/directory", "tos_agreed": True} for j in range(sc["nep"])],
            "hook": hooks, "group": [{"name": "rec-all", "hooks": [h["name"] for h in hooks]}],
-           "account": [{"name": "acc%d" % i, "contacts": [{"mailto": m} for m in contacts], "key_type": key_type}
+           "account": [dict({"name": "acc%d" % i, "contacts": [{"mailto": m} for m in contacts], "key_type": key_type},
+                            **({"external_account": {"identifier": "kid-1", "key": EAB_KEY}} if eab else {}))
                        for i in range(sc["nacc"])],
            "certificate": [dict(c, hooks=["rec-all"]) for c in sc["certs"]]}
     return cfggen.write(os.path.join(root, "acmed.toml"), cfg)
@@ -74,6 +78,7 @@ def run_rounds(sc, root, helper):
             rules = [{"kind": k, "nth": n, "answer": {"drop": True}}
                      for k, n in (("newOrder", 0), ("challenge", 1), ("finalize", 1), ("newAccount", 0))]
             opts["nonce_on_get"] = False
+        opts["eab_keys"] = {"kid-1": EAB_KEY}
         ca = mockca.MockCA(helper, rules=rules, opts=opts)
         ca.o["delay_ms"] = 0
         ca.rand_delay = sc["delay"]
@@ -99,6 +104,12 @@ def run_rounds(sc, root, helper):
         elif sc["mode"] == "changes":
             plan.append(("contacts", ["b@example.org", "a@example.org"], sc["key_type"]))
             plan.append(("key", ["b@example.org", "a@example.org"], "ecdsa_p384"))
+        if sc["mode"] == "binding":
+            # registered with an external account binding; the binding is then removed, later put back
+            plan = [("first-with-binding", sc["contacts"], sc["key_type"]),
+                    ("binding-removed", sc["contacts"], sc["key_type"]),
+                    ("binding-removed-again", sc["contacts"], sc["key_type"]),
+                    ("binding-added", sc["contacts"], sc["key_type"])]
         for what, contacts, kt in plan:
             if what == "forgotten":
                 for ca in cas:
@@ -112,10 +123,10 @@ def run_rounds(sc, root, helper):
                     if fn.endswith(".crt.pem"):
                         os.remove(os.path.join(cdir, fn))
             marks = [len(ca.log) for ca in cas]
-            cfg_path = write_cfg(d, sc, cas, contacts, kt)
+            cfg_path = write_cfg(d, sc, cas, contacts, kt, eab=what in ("first-with-binding", "binding-added"))
             res = vlib.probe([{"op": "concurrent_attempts", "path": cfg_path, "threads": sc["threads"],
                                "timeout_ms": 60000}], timeout=120)[0]
-            rounds.append({"what": what, "res": res,
+            rounds.append({"what": what, "res": res, "index": len(rounds),
                            "ca_logs": [ca.log[m:] for ca, m in zip(cas, marks)]})
     finally:
         for ca in cas:
@@ -159,8 +170,14 @@ def judge_round(ctx, sc, rnd):
                 created[k] = created.get(k, 0) + 1
             if a.get("problem") == "accountDoesNotExist":
                 dne += 1
+        # a round in which the configured binding differs from the one the account was registered with may
+        # register once more per (account, endpoint); a round that keeps it may not
+        nbind = 1 if rnd["what"] in ("binding-removed", "binding-added") else 0
+        # start allowance: in the first round a pair may have to register; in a later round every pair in
+        # use was registered in the round before (Props/C12Reg.register_once_from_start)
+        base = 1 if rnd.get("index", 0) == 0 or sc["mode"] == "dropped" else 0
         for k, n in created.items():
-            pairs.append([n, dne, 0])
+            pairs.append([n, dne, nbind, base])
     v = vlib.model([{"op": "c12_judge", "tasks": tasks, "events": events, "all_returned": res["all_returned"],
                      "pairs": pairs, "nonces": nonces}])[0]
     ctx.count("round:" + rnd["what"])
@@ -172,7 +189,8 @@ def judge_round(ctx, sc, rnd):
     if rnd["what"] == "forgotten":
         ctx.count("re-registrations", sum(p[0] for p in pairs))
     if not v.get("holds"):
-        why = [k for k in ("all_returned", "tasks_ok", "mutex_respected", "register_once_ok", "nonces_distinct")
+        why = [k for k in ("all_returned", "tasks_ok", "mutex_respected", "register_once_ok",
+                           "register_once_from_start_ok", "nonces_distinct")
                if not v.get(k)]
         ctx.violation("concurrent renewals (%d certificates, %d accounts, %d endpoints, %d threads, round %s): %s%s"
                       % (sc["ncert"], sc["nacc"], sc["nep"], sc["threads"], rnd["what"], ", ".join(why),
@@ -180,7 +198,7 @@ def judge_round(ctx, sc, rnd):
                          % (len(tasks) - len(res["results"]), len(tasks))),
                       dict(robj, verdict=v, results=res["results"], tasks=res["tasks"], events=events[:400],
                            pairs=pairs))
-    elif ok_n < len(tasks) and rnd["what"] in ("first", "forgotten") and sc["mode"] != "dropped":
+    elif ok_n < len(tasks) and rnd["what"] in ("first", "forgotten", "first-with-binding") and sc["mode"] != "dropped":
         # not a C12 clause, but a dead harness would hide everything
         ctx.broke("harness", "attempts failed against a conforming CA", dict(robj, results=res["results"]))
 
@@ -197,8 +215,8 @@ def run(ctx):
     shutil.rmtree(root, ignore_errors=True)
     try:
         n = 18 if ctx.quick() else 400
-        modes = ["first", "forgotten", "changes", "dropped"]
-        scs = [build_scenario(ctx.rng, i, modes[i % 4]) for i in range(n)]
+        modes = ["first", "forgotten", "changes", "dropped", "binding"]
+        scs = [build_scenario(ctx.rng, i, modes[i % 5]) for i in range(n)]
         with concurrent.futures.ThreadPoolExecutor(max_workers=6) as ex:
             all_rounds = list(ex.map(lambda sc: run_rounds(sc, root, helper), scs))
         for sc, rounds in zip(scs, all_rounds):
